@@ -68,11 +68,19 @@ func c42Refs(in string) eng.Res {
 	if err != nil || g == nil {
 		return eng.OK("uncompilable", false)
 	}
-	plain := !strings.ContainsAny(src, "*_@$") && !strings.Contains(src, "layers") && !strings.Contains(src, "null")
+	// completeness clause: plain index files, optionally with whole-file spread imports of x.d2 at the root (their
+	// root-level declarations merge into the importing file's root)
+	noImp := strings.ReplaceAll(src, "...@x\n", "")
+	plain := !strings.ContainsAny(noImp, "*_@$") && !strings.Contains(src, "layers") && !strings.Contains(src, "scenarios") && !strings.Contains(src, "null")
 	ast, _ := Parse(src)
 	decls := map[string][]d2ast.Range{}
 	if plain && ast != nil {
 		declsOf(ast, nil, decls)
+		if noImp != src {
+			if xast, err := d2parser.Parse("x.d2", strings.NewReader(c.Files["x.d2"]), nil); err == nil {
+				declsOf(xast, nil, decls)
+			}
+		}
 	}
 	checked := 0
 	check := func(board []string, key string, namePath []string) *eng.Res {
@@ -122,7 +130,7 @@ func c42Refs(in string) eng.Res {
 			for _, want := range decls[strings.ToLower(strings.Join(namePath, "\x1f"))] {
 				ok := false
 				for _, rg := range ranges {
-					if rg.Path == "index.d2" && rg.Start.Byte <= want.Start.Byte && want.End.Byte <= rg.End.Byte {
+					if rg.Path == want.Path && rg.Start.Byte <= want.Start.Byte && want.End.Byte <= rg.End.Byte {
 						ok = true
 					}
 				}
